@@ -47,9 +47,27 @@ class TaskGroup:
     ) -> Callable[[ASGIReceiveEvent], Awaitable[None]]:
         app_queue: asyncio.Queue[ASGIReceiveEvent] = asyncio.Queue(config.max_app_queue_size)
 
+        finished = False
+
         def _call_soon(func: Callable, *args: Any) -> Any:
             future = asyncio.run_coroutine_threadsafe(func(*args), self._loop)
             return future.result()
+
+        async def _put(message: ASGIReceiveEvent) -> None:
+            if not finished:
+                await app_queue.put(message)
+
+        async def _send(message: Optional[ASGISendEvent]) -> None:
+            nonlocal finished
+            if message is None:
+                # The app has finished, nothing will be received from
+                # here on. A full queue must not block whoever is (or
+                # will be) putting messages for it, including the
+                # clean-up this triggers.
+                finished = True
+                while not app_queue.empty():
+                    app_queue.get_nowait()
+            await send(message)
 
         self.spawn(
             _handle,
@@ -57,11 +75,11 @@ class TaskGroup:
             config,
             scope,
             app_queue.get,
-            send,
+            _send,
             partial(self._loop.run_in_executor, None),
             _call_soon,
         )
-        return app_queue.put
+        return _put
 
     def spawn(self, func: Callable, *args: Any) -> None:
         self._task_group.create_task(func(*args))
